@@ -60,7 +60,10 @@ impl Val {
     }
 }
 
-pub const XNAMES: [&str; 7] = ["X-A", "X-Ab", "X-Req-ID", "x-lower", "Strict", "X-Content", "Content-Len"];
+/// the last five are well-known header names given to the *custom-name* API (`.x(name, ..)`), in several spellings: histories that use
+/// them do not touch headers through the typed API (one header written through both APIs is the user's business, not the property's)
+pub const XNAMES: [&str; 12] = ["X-A", "X-Ab", "X-Req-ID", "x-lower", "Strict", "X-Content", "Content-Len", "Cache-Control", "vary", "X-Frame-Options", "SERVER", "etag"];
+const XNAMES_PLAIN: usize = 7;
 pub const COOKIE_NAMES: [&str; 4] = ["id", "session", "a", "SID"];
 pub const PAYLOAD_TYPES: [&str; 3] = ["application/octet-stream", "image/png", "text/csv"];
 
@@ -251,7 +254,9 @@ pub fn gen_history(rng: &mut Rng, long: bool) -> Vec<Op> {
     let n = if n == 0 { 0 } else { rng.range(1, n) };
     // a small working set of headers so that remove/set/append collide
     let hot: Vec<usize> = (0..rng.range(1, 5)).map(|_| { let mut i = rng.below(STD_NAMES.len()); if i == IDX_DATE && rng.bool() { i = 36 } i }).collect();
-    let hotx: Vec<usize> = (0..rng.range(1, 3)).map(|_| rng.below(XNAMES.len())).collect();
+    // one history in ten drives well-known names through the custom-name API only
+    let custom_wellknown = !long && rng.chance(1, 10);
+    let hotx: Vec<usize> = (0..rng.range(1, 3)).map(|_| if custom_wellknown { XNAMES_PLAIN + rng.below(XNAMES.len() - XNAMES_PLAIN) } else { rng.below(XNAMES_PLAIN) }).collect();
     let mut ops = vec![];
     if rng.chance(2, 3) {
         ops.push(Op::Status(*rng.pick(&STATUSES)));
@@ -259,7 +264,10 @@ pub fn gen_history(rng: &mut Rng, long: bool) -> Vec<Op> {
     for _ in 0..n {
         let h = if rng.chance(4, 5) { *rng.pick(&hot) } else { rng.below(STD_NAMES.len()) };
         let x = *rng.pick(&hotx);
-        let op = match rng.below(if long { 12 } else { 22 }) {
+        let k = rng.below(if long { 12 } else { 22 });
+        // (typed header operations become custom-name operations in those histories)
+        let k = if custom_wellknown { match k { 0..=2 | 11 => 6, 3 | 4 | 10 => 8, 5 => 9, other => other } } else { k };
+        let op = match k {
             0..=2 => Op::Set(h, gen_val(rng)),
             3 | 4 => Op::Remove(h),
             5 => Op::Append(h, gen_value(rng)),
